@@ -21,6 +21,9 @@ func HB(b []byte) string {
 	if len(b) == 0 {
 		return "(hb 0 0)"
 	}
+	if len(b) > 512 { // long numerals overflow Coq's parser stack
+		return "(" + HB(b[:512]) + " ++ " + HB(b[512:]) + ")"
+	}
 	const hexd = "0123456789abcdef"
 	out := make([]byte, 0, 2*len(b)+16)
 	for i := len(b) - 1; i >= 0; i-- {
